@@ -161,6 +161,23 @@ def rtElem (funcMap : List (Nat × Nat)) (maps : IdMaps) (e : ElemM) : Option El
     some (⟨flag, md', it⟩ : ElemM)
   | _, _ => none
 
+/-- which part of an input name section is applied (`parse_name_section`): subsections are read in
+    order; an entry that names a missing entity is skipped with a warning, **except** a local-name
+    entry for a function index that does not exist, which makes the reader give up: the local names
+    before it stay, every later subsection (types, tables, memories, globals, elements, data in the
+    standard order) is ignored. -/
+def appliedNames (nFuncs : Nat) (n : NamesM) : NamesM :=
+  let good := n.locals.takeWhile (·.1 < nFuncs)
+  if good.length = n.locals.length then n
+  else { n with locals := good, types := [], tables := [], mems := [], globals := [], elems := [], datas := [] }
+
+/-- entries that name an entity the module does not have are skipped (with a warning) -/
+def inRangeNames (nF nY nT nM nG nE nD : Nat) (n : NamesM) : NamesM :=
+  { n with funcs := n.funcs.filter (·.1 < nF), types := n.types.filter (·.1 < nY),
+           tables := n.tables.filter (·.1 < nT), mems := n.mems.filter (·.1 < nM),
+           globals := n.globals.filter (·.1 < nG), elems := n.elems.filter (·.1 < nE),
+           datas := n.datas.filter (·.1 < nD) }
+
 /-- one data segment through parse and emit -/
 def rtData (maps : IdMaps) (d : DataM) : Option DataM :=
   match d.mode with
